@@ -1,5 +1,6 @@
 (** C10 — pinned statements (inbound flows, notifications).  Only [Theorem .. exact ..]. *)
 From Rumqtt Require Import Client.Run4 Client.Inv4 Client.Wire4 Client.Events4 Client.State5 Client.Inv5.
+From Rumqtt Require Import Client.Eff5 Client.Flow5 Client.Wire5 Client.Events5.
 
 Theorem c10_incoming : forall s pk, Inv s -> incoming_reply_spec s pk (handle_incoming_packet s pk).
 Proof. exact incoming_flow. Qed.
@@ -12,8 +13,51 @@ Theorem c10_events_match_writes : forall s o s' rep, Inv s -> op_ok s o = true -
   exists evs, events s' = events s ++ evs /\ writes_match o rep evs.
 Proof. exact step_events. Qed.
 
-(* v5: no incoming packet panics or breaks the bookkeeping (the reply/notification statements
-   c10_incoming / c10_events_match_writes are not ported to v5: correspondence + monitors only) *)
+(* v5: no incoming packet panics or breaks the bookkeeping.  _partial only because of the contract
+   hypothesis: a CONNACK announcing receive-maximum 0 breaks the invariant (c07_contract_needs_receive_max_ge_1_v5);
+   without that hypothesis what holds is c10_incoming_never_panics_v5 below. *)
 Theorem c10_incoming_total_v5_partial : forall s pk, Client.Inv5.Inv5 s -> Client.Inv5.op_ok5 s (Client.State5.Inc5 pk) = true ->
   match Client.State5.handle_incoming_packet5 s pk with Ok (s', _) => Client.Inv5.Inv5 s' | Err (s', _) => Client.Inv5.Inv5 s' | Panic _ => False end.
 Proof. exact Client.Inv5.handle_incoming_packet5_inv. Qed.
+
+Theorem c10_incoming_never_panics_v5 : forall s pk, Client.Inv5.Inv5 s ->
+  match handle_incoming_packet5 s pk with Panic _ => False | _ => True end.
+Proof. exact incoming_never_panics5. Qed.
+
+(* v5 reply table: QoS 1 -> PUBACK id, QoS 2 -> PUBREC id + recorded, none under manual acks; an
+   unknown topic alias on an empty topic -> DISCONNECT 0x82 and nothing else; PUBREL of a known id ->
+   PUBCOMP (whatever the reason code), id cleared; PUBREC of a held publish -> PUBREL, or (failure
+   reason) the flow ends; unsolicited PUBACK / PUBREC / PUBREL / PUBCOMP (any id up to 65535) -> Err
+   with the state unchanged but for the Incoming notification; CONNACK: only the negotiated limit,
+   the allocator and the alias maximum change; server DISCONNECT / client-only packets -> Err. *)
+Theorem c10_incoming_v5 : forall s pk, Client.Inv5.Inv5 s -> incoming_reply_spec5 s pk (handle_incoming_packet5 s pk).
+Proof. exact incoming_flow5. Qed.
+
+(* v5: per op, the notifications queued are: for a broker packet exactly one Incoming, first, then one
+   Outgoing per packet written (matching kind and id) and none otherwise; for a request one Outgoing
+   per packet written; AwaitAck is the only announcement without a write. *)
+Theorem c10_events_match_writes_v5 : forall s o s' rep, Client.Inv5.Inv5 s -> Client.Inv5.op_ok5 s o = true -> outcome5 s o = Some (s', rep) ->
+  exists evs, s5_events s' = s5_events s ++ evs /\ writes_match5 o rep evs.
+Proof. exact step5_events. Qed.
+
+Theorem c10_events_match_writes_run_v5 : forall max manual h o s s' rep,
+  1 <= max -> max <= 65535 -> Client.Inv5.contract5 (init5 max manual) (h ++ [o]) = true ->
+  Client.Inv5.run5 (init5 max manual) h = Some s -> outcome5 s o = Some (s', rep) ->
+  exists evs, s5_events s' = s5_events s ++ evs /\ writes_match5 o rep evs.
+Proof. exact run5_events. Qed.
+
+Theorem c10_nontrivial_v5 :
+  let h := [Inc5 (P5Publish (mkPub5 Q1 7 5 1 (Some 3))); Inc5 (P5Publish (mkPub5 Q2 8 0 1 (Some 3)));
+            Inc5 (P5PubRel 8 146); Out5 (R5Publish (mkPub5 Q2 0 1 1 None)); Inc5 (P5PubRec 1 135);
+            Inc5 (P5PubComp 60000 0); Inc5 (P5Publish (mkPub5 Q1 9 0 1 (Some 4))); Inc5 (P5Disconnect 139)] in
+  Client.Inv5.contract5 (init5 2 false) h = true /\
+  trace5 (init5 2 false) h =
+    [Some (P5PubAck 7 0); Some (P5PubRec 8 0); Some (P5PubComp 8 0); Some (P5Publish (mkPub5 Q2 1 1 1 None)); None;
+     None; Some (P5Disconnect 130); None] /\
+  option_map (fun s => (s5_events s, s5_inflight s)) (Client.Inv5.run5 (init5 2 false) h) =
+    Some ([Ev5In (P5Publish (mkPub5 Q1 7 5 1 (Some 3))); Ev5Out (OPubAck 7);
+           Ev5In (P5Publish (mkPub5 Q2 8 0 1 (Some 3))); Ev5Out (OPubRec 8);
+           Ev5In (P5PubRel 8 146); Ev5Out (OPubComp 8);
+           Ev5Out (OPublish 1); Ev5In (P5PubRec 1 135); Ev5In (P5PubComp 60000 0);
+           Ev5In (P5Publish (mkPub5 Q1 9 0 1 (Some 4))); Ev5Out ODisconnect; Ev5In (P5Disconnect 139)], 0).
+Proof. exact events5_nontrivial. Qed.
